@@ -12,6 +12,14 @@ checks = {
    "Generated tables with a unique id per row are sorted and cut by the real query pipeline (incl. the parallel path, --cpu 2..8 on 160..700 rows); an online oracle checks permutation-ness, absence of adjacent inversions under an independent comparator, equality with a reference sort for total orders, and exact LIMIT/OFFSET/PERCENT/WITH TIES arithmetic at boundary parameters.",
    "Trusts the harness comparator (numbers, datetimes, upper-cased trimmed text, NULL position defaults from the manual). Negative limits/offsets judged as 0, PERCENT>100 as 100.",
    "runtime monitor: sortedness/permutation/cut oracle over executed queries with unique row ids"),
+ "C10": ("fault_enumeration", "§5 C10",
+   "For each generated transaction the real binary is traced once, then killed (SIGKILL to itself from a hook) at EVERY hook point reached between the start of COMMIT and process exit, each on a fresh copy of the directory; after each death every pre-existing table must exist with complete old or complete new bytes and be usable after removing the control files. Thorough adds a walk over every file-system syscall of the commit with strace kill injection.",
+   "Crash = process death at hook/syscall granularity; no torn write(2), no power-loss reordering (csvq never fsyncs; the property speaks of the process dying). Old/new bytes are taken from the initial files and from an undisturbed run of the same transaction.",
+   "runtime fault injection at hook points + directory/bytes monitor"),
+ "C12": ("exploration", "§5 C12",
+   "The real binary executes each generated program with --cpu 1 and then with --cpu 2,3,4,8,16 twice each under seeded scheduling jitter in the worker goroutines; stdout and all files must be byte-identical. The hook trace proves that sections really ran on several goroutines and counts the distinct worker-arrival orders produced.",
+   "Determinism is only observed on the schedules produced (jitter widens them; distinct arrival signatures are reported). Programs are --quiet.",
+   "runtime monitor: differential execution across --cpu values/schedules with injected scheduling jitter"),
 }
 order = ["C%02d" % i for i in range(1, 21)]
 na_reason = "check not built yet in this session (work in progress; see DESIGN.md)"
